@@ -635,6 +635,81 @@ def suite_emitted_ids(ctx, d, pgpy, names):
                     ctx.fail('emitted-ids', 'message encrypted to the public twin is not decrypted by the key', {'op': 'pkesk', 'key': name, 'impl': repr(dec)})
 
 
+# KDF parameters that are NOT what EllipticCurveOID.kdf_halg / kek_alg would pick for the curve (hash id, cipher id)
+NONDEFAULT_KDF = {256: (10, 9), 384: (9, 9), 521: (10, 7)}
+
+
+def nondefault_kdf_blob(key):
+    """bytes(private key) with the KDF block (03 01 hash cipher) of every ECDH key packet rewritten to non-default parameters.
+    The block lies at the end of the public material; secret checksums do not cover it; loading does not verify bindings.
+    Returns (blob, [(index of the key packet, kh, ke)])"""
+    out, changed, idx = b'', [], -1
+    pkts = packets_of_key(key)
+    for tag, body in split_packets(bytes(key)):
+        if tag in (5, 7, 6, 14):
+            idx += 1
+            pkt = pkts[idx]
+            if int(pkt.pkalg) == 18:
+                end = 6 + pkt.keymaterial.publen()
+                assert body[end - 4:end - 2] == b'\x03\x01', 'KDF block not where publen says'
+                kh, ke = NONDEFAULT_KDF[pkt.keymaterial.oid.key_size]
+                assert (kh, ke) != (int(pkt.keymaterial.kdf.halg), int(pkt.keymaterial.kdf.encalg))
+                body = body[:end - 2] + bytes([kh, ke]) + body[end:]
+                changed.append((idx, kh, ke))
+        n = len(body)
+        out += bytes([0xc0 | tag]) + (bytes([n]) if n < 192 else bytes([192 + ((n - 192) >> 8), (n - 192) & 0xff]) if n < 8384 else b'\xff' + n.to_bytes(4, 'big')) + body
+    return out, changed
+
+
+def suite_kdf(ctx, d, pgpy, names):
+    """ECDH secret (sub)keys whose KDF parameters are NOT the per-curve defaults: written by the model encoder (and, equal octets, by
+    editing the KDF block of the exported packet), loaded by PGPy; private key, its packets' pubkey() and PGPKey.pubkey must agree on
+    fingerprint / key id / exported public body, which must be the RFC values"""
+    from .keys import get
+    from pgpy.packet import Packet
+    with warnings.catch_warnings():
+        warnings.simplefilter('ignore')
+        for name in names:
+            key0 = get(name)
+            blob, changed = nondefault_kdf_blob(key0)
+            if not changed:
+                continue
+            o = outcome(lambda: pgpy.PGPKey.from_blob(blob)[0])
+            if o[0] != 'ok':
+                ctx.fail('kdf', 'private key with non-default ECDH KDF parameters is not loaded', {'op': 'kdf', 'key': name, 'blob': blob.hex(), 'impl': repr(o)}); continue
+            key = o[1]
+            pk0, pk = packets_of_key(key0), packets_of_key(key)
+            pub = key.pubkey
+            ppk = packets_of_key(pub)
+            for idx, kh, ke in changed:
+                case = {'op': 'kdf', 'key': name, 'idx': idx, 'kdf': [kh, ke]}
+                # the model encoder writes the same secret packet from the ORIGINAL fields + the new parameters
+                toks = key_tokens(pk0[idx]).replace(' %s %s sec ' % (hn(int(pk0[idx].keymaterial.kdf.halg)), hn(int(pk0[idx].keymaterial.kdf.encalg))), ' %s %s sec ' % (hn(kh), hn(ke)))
+                mt, mb = d.call('body ' + toks).split(' ')
+                (tag, body), = split_packets(bytes(pk[idx].__bytearray__()))
+                ctx.expect_eq('kdf', 'model-encoded secret ECDH packet differs from the edited / re-emitted one', case, (tag, body.hex()), (unhn(mt), mb))
+                q = outcome(lambda: Packet(bytearray(unhx(d.call('pkt', mt, mb)))))
+                if q[0] != 'ok' or (int(q[1].keymaterial.kdf.halg), int(q[1].keymaterial.kdf.encalg)) != (kh, ke):
+                    ctx.fail('kdf', 'PGPy does not read the KDF parameters the model encoder wrote', dict(case, impl=repr(q)[:200])); continue
+                ctx.expect_eq('kdf', 'fields read by PGPy differ from the fields encoded', case, key_tokens(q[1]), toks)
+                # private packet (loaded from the blob and read from the model-encoded packet): fingerprint, publen, bodies, RFC law through pubkey()
+                m = check_packet(ctx, d, 'kdf', pk[idx], case)
+                check_packet(ctx, d, 'kdf', q[1], dict(case, source='model-encoded'))
+                # PGPKey level: twin
+                tw = ppk[idx] if idx < len(ppk) else None
+                (ttag, tbody), = split_packets(bytes(tw.__bytearray__())) if tw is not None else ((None, b''),)
+                got = (str(tw.fingerprint).lower(), str(tw.fingerprint.keyid).lower(), tbody.hex()) if tw is not None else None
+                ctx.expect_eq('kdf', 'public twin of an ECDH key with non-default KDF parameters: fingerprint / key id / exported body differ from the private key\'s (RFC values)',
+                              dict(case, pkt=bytes(pk[idx].__bytearray__()).hex()), got, (m['fp'], m['keyid'], m['rfcbody']))
+                if str(pk[idx].fingerprint) == str(pk0[idx].fingerprint):
+                    ctx.fail('kdf', 'harness: KDF parameters did not change the fingerprint', case)
+            # stability of the whole key
+            ctx.case('kdf', (name, 'whole'))
+            if fps(pub) != fps(key) or fps(pgpy.PGPKey.from_blob(bytes(pub))[0]) != fps(key) or fps(pgpy.PGPKey.from_blob(bytes(key))[0]) != fps(key):
+                ctx.fail('kdf', 'fingerprints of twin / re-imported twin / re-imported key differ from the private key\'s',
+                         {'op': 'kdf', 'key': name, 'blob': blob.hex(), 'priv': fps(key), 'pub': fps(pub)})
+
+
 def suite_fresh(ctx, d, pgpy, specs):
     from pgpy.constants import PubKeyAlgorithm as A, EllipticCurveOID as C
     for alg, size in specs:
@@ -742,6 +817,7 @@ def run(ctx):
                                  ('ECDSA', 'Brainpool_P256'), ('ECDH', 'Brainpool_P384')]
         else:
             fresh.append(('RSAEncryptOrSign', 2048))
+        suite_kdf(ctx, d, pgpy, [n for n in names if n in ('ed25519', 'ed25519b', 'p256', 'p384', 'p521', 'secp256k1')])
         suite_fresh(ctx, d, pgpy, fresh)
         suite_opaque(ctx, d, pgpy)
         suite_gpg(ctx, d, pgpy, [n for n in names if n in ('ed25519', 'p256', 'rsa1024')] if q else names)
